@@ -163,7 +163,7 @@ def leg_text_docs(chk, tier):
             arch, 3 if quick else 12, "{0, 34, 60, 123}" if quick else "{0, 32, 34, 44, 60, 62, 91, 123, 125, 128, 255}", 40 if quick else 90))
         r = tlc("MC_DocDamage", cfg=cfg, env={"DOCS": dp}, timeout=3000, xmx="6g")
         chk.add_tlc("MC_DocDamage (%s)" % arch, r, {"documents": len(base)})
-        scen = [dict(base[g["src"] - 1], doc=g["doc"], kind=g["kind"]) for g in r.printed("GEN")]
+        scen = [dict(base[g["src"] - 1], doc=g["doc"], kind=g["kind"], utf8ok=g["utf8ok"]) for g in r.printed("GEN")]
         # every intact document of the space (not only the sample that gets damaged)
         sampled = set(id(x) for x in base)
         scen += [dict(x, kind="intact") for x in sc if id(x) not in sampled]
@@ -182,8 +182,13 @@ def leg_text_docs(chk, tier):
                     continue
                 same = "e" not in o and o["exc"] == mem[0]["exc"] and (o["exc"] != ["none"] or o["ev"] == mem[0]["ev"])
                 if not same:
+                    # guard of Dev_JsonMemoryAcceptsIllFormedUtf8: JSON, the bytes are not well-formed UTF-8 (decided by MC_DocDamage!ValidUtf8),
+                    # the stream loader reports a parsing error and the memory loader does not
+                    dev = None
+                    if arch == "json" and s.get("utf8ok") is False and "e" not in o and o["exc"] == ["ser", "Parsing error"] and mem[0]["exc"] != ["ser", "Parsing error"]:
+                        dev = "Dev_JsonMemoryAcceptsIllFormedUtf8"
                     chk.fail("%s: memory and %s loading differ on a %s document: %s vs %s" % (arch, o["medium"], s["kind"], json.dumps(mem[0]["exc"]), o.get("e") or json.dumps(o["exc"])),
-                             {"scenario": {k: s[k] for k in ("doc", "root", "pol", "kind")}, "document": bytes(s["doc"]).decode("latin-1")[:200], "memory": mem[0], "stream": o})
+                             {"scenario": {k: s[k] for k in ("doc", "root", "pol", "kind")}, "document": bytes(s["doc"]).decode("latin-1")[:200], "memory": mem[0], "stream": o}, dev=dev)
         chk.add_cases(len(pairs), distinct_keys=((arch, json.dumps(s["doc"]), json.dumps(s["root"]), json.dumps(s["pol"])) for s in scen), validated=len(pairs))
         kinds = {}
         for s in scen:
